@@ -2,6 +2,7 @@
 import re
 from analysis.engine import rule, AnchorMissing, Definite
 from analysis import cfg, poly
+from analysis.facts import norm_path
 from analysis.sym import sym, show_in, nosite, peel, core, walk, ret_values, args_of, guards_at, atoms_at, \
     variant_facts_at, cmp_facts_at, init_value, edge_guards, symbolizer, simplify, loop_source, defs_of, var_defs
 from analysis.pat import match, Call, Cap, ANY, Pred, Const, has, chain_names
@@ -320,64 +321,79 @@ def r2(ctx):
             has(init_value(b, v[3][2]), Call('split_ascii_whitespace', ('arg', 2, ANY))) and match(v[3][2], Call('Vec::len', ANY))
     ctx.require(ok, b, 'result', 'returns (matches, |a_words|, |b_words|)', 'returns %s' % [show_in(b, x) for x, _ in rv])
     mw = ctx.body('text::match_words')
-    rv = ret_values(mw)
+    from analysis.alts import ret_alts_paths, flatten, Alt, consistent
+    from rules.common import closure_of
 
-    def kind_of(c):
+    def kind_of(f):
+        """'exact' / 'lower' for a comparison function given as a closure value or as a function item"""
+        f = peel(f)
+        if not (isinstance(f, tuple) and f):
+            return None
+        if f[0] == 'agg' and f[1] == 'closure':
+            c, a1, a2 = closure_of(ctx, f), 2, 3
+        elif f[0] == 'fn':
+            l = [x for x in ctx.facts.bodies if norm_path(x.path) == norm_path(f[1])]
+            if len(l) != 1:
+                return None
+            c, a1, a2 = l[0], 1, 2
+        else:
+            return None
         rvc = ret_values(c)
         if len(rvc) == 1:
             v = core(rvc[0][0])
-            if match(v, ('bin', 'Eq', ('arg', 2, ANY), ('arg', 3, ANY))):
+            if match(v, ('bin', 'Eq', ('arg', a1, ANY), ('arg', a2, ANY))):
                 return 'exact'
-            if v[0] == 'bin' and v[1] == 'Eq' and has(v[2], Call('to_lowercase', ('arg', 2, ANY))) and has(v[3], Call('to_lowercase', ('arg', 3, ANY))):
+            if v[0] == 'bin' and v[1] == 'Eq' and has(v[2], Call('to_lowercase', ('arg', a1, ANY))) and has(v[3], Call('to_lowercase', ('arg', a2, ANY))):
                 return 'lower'
         return None
-    direct = len(rv) == 1 and match(core(rv[0][0]), Call('match_words_with', ('arg', 1, ANY), ('arg', 2, ANY), Call('str_match_fn', ('arg', 3, ANY))))
-    if not direct:
-        # the same dispatch written out in match_words: one call per value of the flag, each with its own comparison closure
-        from analysis.alts import ret_alts_paths, flatten, Alt, consistent
-        from rules.common import closure_of
-        table = {}
-        okw = True
-        for a_ in ret_alts_paths(ctx.facts, mw) or []:
+
+    def alts_of(body):
+        out = []
+        for a_ in ret_alts_paths(ctx.facts, body) or []:
             for x_ in flatten(a_.value):
                 m_ = Alt(nosite(x_.value), list(a_.variants) + list(x_.variants), list(a_.atoms) + list(x_.atoms))
-                if not consistent(m_):
-                    continue
-                fl = [pol for tt, pol in m_.atoms if match(core(tt), ('arg', 3, ANY))]
-                e = {}
-                if len(set(fl)) == 1 and match(core(m_.value), Call('match_words_with', ('arg', 1, ANY), ('arg', 2, ANY), Cap('f')), e) and \
-                        isinstance(peel(e['f']), tuple) and peel(e['f'])[0] == 'agg' and peel(e['f'])[1] == 'closure':
-                    table.setdefault(fl[0], set()).add(kind_of(closure_of(ctx, peel(e['f']))))
-                else:
+                if consistent(m_) and not any((t_, not p_) in m_.atoms for t_, p_ in m_.atoms):
+                    out.append(m_)
+        return out
+
+    def flag_of(m_, argno):
+        fl = [pol for tt, pol in m_.atoms if match(core(tt), ('arg', argno, ANY))]
+        # `match flag { true => .., false => .. }` switches on the value itself
+        return fl[0] if len(set(fl)) == 1 else None
+
+    def untuple(v):
+        """(x.0, x.1, x.2) rebuilt from one value x is x"""
+        c = peel(v)
+        if c[0] == 'agg' and c[1] == 'tuple' and c[3] and all(isinstance(q, tuple) and core(q)[0] == 'field' and core(q)[2] == i for i, q in enumerate(c[3])):
+            bases = {repr(nosite(core(q)[1])) for q in c[3]}
+            if len(bases) == 1:
+                return core(c[3][0])[1]
+        return v
+    # the comparison handed to match_words_with, per value of ignore_case: either chosen in match_words itself or by str_match_fn
+    table, okw = {}, True
+    for m_ in alts_of(mw):
+        e = {}
+        if not match(core(untuple(m_.value)), Call('match_words_with', ('arg', 1, ANY), ('arg', 2, ANY), Cap('f')), e):
+            okw = False
+            continue
+        f = peel(e['f'])
+        if match(core(f), Call('str_match_fn', ('arg', 3, ANY))):
+            sm = ctx.body('text::str_match_fn')
+            for n_ in alts_of(sm):
+                fl = flag_of(n_, 1)
+                if fl is None:
                     okw = False
-        ctx.require(okw and table == {True: {'lower'}, False: {'exact'}}, mw, 'wrapper',
-                    'match_words(a, b, ic) = match_words_with(a, b, lower-cased equality if ic else equality)',
-                    'match_words dispatches %s' % {k: sorted(map(str, v)) for k, v in table.items()})
-        return
-    ctx.require(direct, mw, 'wrapper', 'match_words(a, b, ic) = match_words_with(a, b, str_match_fn(ic))', None)
-    sm = ctx.body('text::str_match_fn')
-    clos = [c for c in ctx.facts.bodies if c.kind == 'Closure' and c.parent == sm.path]
-    kinds = {}
-    for c in clos:
-        k_ = kind_of(c)
-        if k_:
-            kinds[k_] = c
-    ctx.require(set(kinds) == {'exact', 'lower'}, sm, 'match-fns', 'word equality is a == b, or lower-cased equality when ignore_case', 'found %s' % sorted(kinds))
-    # ... each under its value of the flag
-    from analysis.alts import ret_alts_paths as _rap, flatten as _fl, Alt as _Alt, consistent as _cons
-    tbl = {}
-    for a_ in _rap(ctx.facts, sm) or []:
-        for x_ in _fl(a_.value):
-            m_ = _Alt(nosite(x_.value), list(a_.variants) + list(x_.variants), list(a_.atoms) + list(x_.atoms))
-            v_ = peel(m_.value)
-            fl = [pol for tt, pol in m_.atoms if match(core(tt), ('arg', 1, ANY))]
-            if _cons(m_) and len(set(fl)) == 1 and isinstance(v_, tuple) and v_ and v_[0] == 'agg' and v_[1] == 'closure':
-                for k_, c in kinds.items():
-                    if c.path == v_[2]:
-                        tbl.setdefault(fl[0], set()).add(k_)
-    if tbl:
-        ctx.require(tbl == {True: {'lower'}, False: {'exact'}}, sm, 'match-fn-by-flag', 'ignore_case selects the lower-cased comparison, otherwise the exact one',
-                    'str_match_fn returns %s' % {k: sorted(v) for k, v in tbl.items()})
+                else:
+                    table.setdefault(fl, set()).add(kind_of(n_.value))
+        else:
+            fl = flag_of(m_, 3)
+            if fl is None:
+                okw = False
+            else:
+                table.setdefault(fl, set()).add(kind_of(f))
+    ctx.require(okw and table == {True: {'lower'}, False: {'exact'}}, mw, 'wrapper',
+                'match_words(a, b, ic) = match_words_with(a, b, lower-cased equality if ic else plain equality)',
+                'match_words compares with %s' % {k: sorted(map(str, v)) for k, v in table.items()})
 
 
 @rule('C18', 'R-C18-3', 'T2 CHAIN (edited_words)',
